@@ -355,6 +355,67 @@ Proof.
 Qed.
 Print Assumptions resel_fwhm_mutually_inverse.
 
+(* Resels (fwhm.py) for EVERY affine coordinate map.  wedge = root |det(affine)|: positive and
+   wedge^D = |det| for every invertible affine; flipping voxel axes multiplies the determinant
+   by -1 per flip (det3_scale_columns with s = -1; the homogeneous 4x4 has the determinant of
+   its 3x3 block) and leaves wedge - hence both conversions - unchanged. *)
+Theorem source_wedge_is_model :
+  forall D root wedge detA,
+  src_wedge pos_recipr root D wedge detA = wedge_of root detA /\ src_integrate_is_masked_mean = true.
+Proof. exact src_wedge_ok. Qed.
+Print Assumptions source_wedge_is_model.
+
+Theorem affine_determinant_under_axis_scaling :
+  forall s1 s2 s3 a b c d e f g h i tx ty tz : R,
+  det4 (s1 * a) (s2 * b) (s3 * c) tx (s1 * d) (s2 * e) (s3 * f) ty (s1 * g) (s2 * h) (s3 * i) tz 0 0 0 1
+  = (s1 * s2 * s3 * det3 a b c d e f g h i)%R.
+Proof. intros. rewrite det4_homogeneous. apply det3_scale_columns. Qed.
+Print Assumptions affine_determinant_under_axis_scaling.
+
+Theorem wedge_positive_and_orientation_free :
+  forall (D : nat) (root : R -> R),
+  (forall r, (0 < r)%R -> (0 < root r)%R /\ (root r ^ D)%R = r) ->
+  forall d, d <> 0%R ->
+  (0 < wedge_of root d)%R /\ (wedge_of root d ^ D)%R = Rabs d /\ wedge_of root (- d) = wedge_of root d.
+Proof.
+  intros D root H d Hd. split; [apply (wedge_pos D root H d Hd)|split; [apply (wedge_pow D root H d Hd)|apply wedge_flip]].
+Qed.
+Print Assumptions wedge_positive_and_orientation_free.
+
+(* the conversions of a Resels object built on ANY invertible affine (determinant d of either
+   sign) are mutually inverse, do not depend on the orientation, and mean
+   resels per voxel = voxel volume * (sqrt(4 ln 2) / fwhm)^D *)
+Theorem resel_fwhm_inverse_for_every_affine :
+  forall (D : nat) (root : R -> R),
+  (forall r, (0 < r)%R -> (0 < root r)%R /\ (root r ^ D)%R = r) ->
+  (forall x, (0 < x)%R -> root (x ^ D)%R = x) ->
+  forall d v, d <> 0%R -> (0 < v)%R ->
+  (fwhm2resel D (wedge_of root d) (resel2fwhm root (wedge_of root d) v) = v /\
+   resel2fwhm root (wedge_of root d) (fwhm2resel D (wedge_of root d) v) = v) /\
+  (fwhm2resel D (wedge_of root (- d)) v = fwhm2resel D (wedge_of root d) v /\
+   resel2fwhm root (wedge_of root (- d)) v = resel2fwhm root (wedge_of root d) v) /\
+  fwhm2resel D (wedge_of root d) v = (Rabs d * (sqrt (4 * ln 2) / v) ^ D)%R.
+Proof.
+  intros D root H1 H2 d v Hd Hv. split; [|split].
+  - apply (resel_inverse_any_affine D root H1 H2); assumption.
+  - apply resel_orientation_independent.
+  - apply (fwhm2resel_meaning D root H1); assumption.
+Qed.
+Print Assumptions resel_fwhm_inverse_for_every_affine.
+
+(* Resels.integrate over a constant resel field (any mask with a non-zero count): total = r * n,
+   the reported FWHM is resel2fwhm r *)
+Theorem integrate_constant_field :
+  forall (root : R -> R) wedge r vox,
+  Forall (fun p => fst p = r) vox -> rsum (map snd vox) <> 0%R ->
+  integrate root wedge vox = ((r * rsum (map snd vox))%R, resel2fwhm root wedge r, rsum (map snd vox)).
+Proof. exact integrate_constant. Qed.
+Print Assumptions integrate_constant_field.
+
+(* the executable determinant used by the correspondence, on the flipped 2 x 3 x 4 mm affine *)
+Example qdet_flipped : qdet [[(-2)%Q; 0%Q; 0%Q; 5%Q]; [0%Q; 3%Q; 0%Q; 1%Q]; [0%Q; 0%Q; 4%Q; 0%Q]; [0%Q; 0%Q; 0%Q; 1%Q]] = (-24)%Q.
+Proof. vm_compute. reflexivity. Qed.
+
 (* non-vacuity: concrete geometries [k; c_k; L; window start; stop; peak offset] *)
 Example geom_even_cropped : geom_diag 8 1 (17 # 20) = [8; 3; 18; 3; 11; 0].
 Proof. vm_compute. reflexivity. Qed.
